@@ -10,7 +10,7 @@ flipped infinity sign, swapped begin/end, dropped negation ...):
 Writes /verif/evidence/mutation.json: per mutant the outcome, and the list of suite-surviving mutants that no
 check reports (candidates for equivalent mutants or blind spots; they are triaged by hand in DESIGN.md 8.4).
 
-usage: mutants.py [--jobs J] [--scale S] [--max N] [--only substring] [--stride K] [--recheck mutation.json]
+usage: mutants.py [--jobs J] [--scale S] [--max N] [--only substring] [--stride K] [--recheck mutation.json [--sample N]]
 """
 import os
 import re
@@ -179,6 +179,10 @@ def main():
         ms = [m for m in sites() if (m['file'], m['line'], m['op']) in want]
         os.environ['MUT_ALL_CHECKS'] = '1'
         os.environ['MUT_SKIP_SUITE'] = '1'
+        sample = int(arg('--sample', '0'))
+        if sample and sample < len(ms):
+            import random
+            ms = random.Random(20260924).sample(ms, sample)
     if mx:
         ms = ms[:mx]
     print('%d mutation sites' % len(ms))
